@@ -140,6 +140,25 @@ func genC13(rng *rand.Rand, tier string) *DBPlan {
 		p.Conns = [][]DMsg{{{Kind: "sub", Query: 1}}, {{Kind: "get", Key: 5, Gap: 3}}}
 		p.Writes = nil
 		return p
+	case 11, 12, 13, 14:
+		// a qsub (sometimes a sub) that starts at the same moment as a burst of writes and deletes to matching keys:
+		// every change that is not part of the query replies must be notified
+		first := []DMsg{{Kind: "qsub", Query: []int{0, 1, 2, 7}[rng.IntN(4)]}}
+		if rng.IntN(4) == 0 {
+			first[0].Kind = "sub"
+		}
+		if rng.IntN(3) == 0 {
+			first = append(first, DMsg{Kind: "get", Key: rng.IntN(3), Gap: rng.IntN(2)})
+		}
+		p.Conns = [][]DMsg{first}
+		if rng.IntN(3) == 0 {
+			p.Conns = append(p.Conns, []DMsg{{Kind: []string{"update", "create", "delete"}[rng.IntN(3)], Key: rng.IntN(3), Body: rng.IntN(2)}})
+		}
+		p.Writes = nil
+		for i, n := 0, 2+rng.IntN(6); i < n; i++ {
+			p.Writes = append(p.Writes, DWrite{Key: rng.IntN(3), Delete: rng.IntN(5) == 0, Gap: rng.IntN(2) * rng.IntN(2)})
+		}
+		return p
 	case 5, 6:
 		// flood: a subscriber whose client has stopped reading, and more writes than its feed holds
 		p.Stall = 1005 + rng.IntN(20)
